@@ -30,11 +30,15 @@ EXPLANATION = ("Lean theorems: after any op sequence the checked/matched flags e
                "three executors. Matching itself (C23) is a parameter.")
 THEOREMS = ["Cppcheck.Unmatched.flags_exact", "Cppcheck.Unmatched.unmatched_exact", "Cppcheck.Unmatched.never_for_matched",
             "Cppcheck.Unmatched.merge_commutes", "Cppcheck.Unmatched.merge_equals_sequential",
-            "Cppcheck.Unmatched.line_suppression_needs_inline_counterexample", "Cppcheck.Unmatched.hash_lost_on_wire_counterexample"]
+            "Cppcheck.Unmatched.wire_keeps_key",
+            "Cppcheck.Unmatched.line_suppression_needs_inline_counterexample", "Cppcheck.Unmatched.hash_lost_on_wire_counterexample",
+            "Cppcheck.Unmatched.local_hides_from_global_counterexample"]
 MODULES = ["Cppcheck.Props.C24"]
 
+VARIANT = dict(markAlways=False, skipHash=False, showGlobal=False)     # set by extract() from the source on every run
 KEY_LINE = "line-suppression-unchecked-without-inline-suppr"
 KEY_HASH = "hash-suppression-duplicated-by-process-executor"
+KEY_LOCAL = "global-suppression-not-shown-findings-hidden-by-local-suppression-in-workers"
 
 IDS = ["nullPointer", "uninitvar", "zerodiv", "memleak", "unusedFunction", "unmatchedSuppression", "checkersReport", "null*", "*", "uninit*",
        "misra-c2012-1.1", "premium-x", "a.b"]
@@ -153,8 +157,10 @@ def gen_report(rng):
 
 def harness_line(op):
     k = op[0]
-    if k in ("new", "thread", "wire"):
+    if k in ("new", "thread"):
         return k
+    if k == "wire":
+        return "wire %d" % (1 if VARIANT["skipHash"] else 0)
     if k in ("add", "upd", "recv"):
         return "%s %s" % (k, suppr_tok(op[1]))
     if k in ("sup", "supx"):
@@ -173,8 +179,10 @@ def harness_line(op):
 
 def driver_line(op, params):
     k = op[0]
-    if k in ("new", "thread", "wire", "ug", "ui"):
+    if k in ("new", "thread", "ug", "ui"):
         return k
+    if k == "wire":
+        return "wire %d" % (1 if VARIANT["skipHash"] else 0)
     if k in ("add", "recv"):
         return "%s %s %s" % (k, params.get("g", "1"), suppr_tok(op[1]))
     if k == "upd":
@@ -314,9 +322,41 @@ def cli_unmatched(lines):
     return sorted(f["text"] for f in lines if f["id"].startswith("unmatched"))
 
 
+def ask(harness25, pdir, nomsg, f):
+    q = " ".join(["q", str(len(nomsg))] + [core.hx(x) for x in nomsg] + ["0", core.hx(f["id"]), core.hx(f["file"]), str(f["line"]), "-"])
+    r = subprocess.run([harness25], input=q + "\n", cwd=pdir, stdout=subprocess.PIPE, text=True, timeout=60)
+    m = re.match(r"^b ([01]{5})", r.stdout)
+    return m.group(1) if m else "00000"
+
+
+def classify_executor_diff(pdir, harness25, sup, raw, got, single):
+    """F24c: the -j run names, in addition to the -j1 lines, only global / wildcard suppressions every matching finding of which is
+    also matched by a file-local suppression of the same command line (the worker's logger stops at the local one)"""
+    extra = list(got)
+    for u in single:
+        if u in extra:
+            extra.remove(u)
+        else:
+            return None          # a line of the -j1 run is missing: another class
+    if not extra:
+        return None
+    local = [x for x in sup if len(x.split(":")) > 1 and not any(c in x.split(":")[1] for c in "*?")]
+    for u in extra:
+        p = u.split("|")
+        name = p[5][len("Unmatched suppression: "):] if p[5].startswith("Unmatched suppression: ") else None
+        cands = [x for x in sup if x not in local and x.split(":")[0] == name and (p[1] == "nofile" if len(x.split(":")) == 1 else p[1] == x.split(":")[1])]
+        if not cands:
+            return None
+        g = cands[0]
+        hit = [f for f in raw if ask(harness25, pdir, [g], f)[1] == "1"]
+        if not hit or not all(ask(harness25, pdir, local, f)[0] == "1" for f in hit):
+            return None
+    return KEY_LOCAL
+
+
 def run_cli(ctx, res, rng, thorough, viol):
     runner = cli.Runner(ctx, ctx.cppcheck)
-    harness25 = ctx.harness("c25")
+    harness25 = cli.robust_harness(ctx, "c25")
     nproj = 6 if thorough else 2
     nsets = 8 if thorough else 3
     ncases = 0
@@ -354,8 +394,9 @@ def run_cli(ctx, res, rng, thorough, viol):
             # (b1) executor independence
             for key, (um, args, lines) in results.items():
                 if um != ref[0]:
+                    k2 = classify_executor_diff(pdir, harness25, sup, raw, um, ref[0]) if key[0] != "single" else None
                     viol.append(("unmatchedSuppression lines differ between executors: %s -> %s ; single -> %s" % (" ".join(args), um, ref[0]),
-                                 dict(kind="cli", project=proj, suppress=sup, inline=inline, executor=key[0], builddir=key[1], got=um, single=ref[0]), None))
+                                 dict(kind="cli", project=proj, suppress=sup, inline=inline, executor=key[0], builddir=key[1], got=um, single=ref[0]), k2))
             # (b2) never for a suppression that matches a reference finding; every applicable one is named
             shown = [f for f in ref[2] if f["id"] not in ("checkersReport",) and not f["id"].startswith("unmatched")]
             for s in sup:
@@ -398,13 +439,109 @@ def translate(ctx):
     pass
 
 
+def extract(root):
+    """T: the call sites / helper code the model and the harness copy, fail closed.  Returns (variant, errors)."""
+    T = cli
+    errs = []
+    var = dict(markAlways=None, skipHash=None, showGlobal=None)
+
+    def rd(rel):
+        return open(os.path.join(root, rel), encoding="utf-8", errors="replace").read()
+
+    def guard(fn):
+        try:
+            fn()
+        except (T.Unrecognised, ValueError, OSError) as ex:
+            errs.append(str(ex))
+
+    def t_cppcheck():
+        cc = rd("lib/cppcheck.cpp")
+        b = T.function_body(cc, "unsigned int CppCheck::check(const FileWithDetails &file)")
+        T.need(b, 'ErrorMessage msg({}, file.spath(), Severity::information, "", "", Certainty::normal); '
+                  "(void)mSuppressions.nomsg.isSuppressed(SuppressionList::ErrorMessage::fromErrorMessage(msg, {}), true);", "CppCheck::check (dummy call)")
+        b = T.function_body(cc, "unsigned int CppCheck::checkInternal(const FileWithDetails& file, const std::string &cfgname, const CreateTokenListFn& createTokenList)")
+        T.need(b, "preprocessor.inlineSuppressions(mSuppressions.nomsg);", "checkInternal")
+        T.need(b, "mSuppressions.nomsg.markUnmatchedInlineSuppressionsAsChecked(tokenizer.list);", "checkInternal")
+        legacy = "if (mSettings.inlineSuppressions) { mSuppressions.nomsg.markUnmatchedInlineSuppressionsAsChecked(tokenizer.list); }"
+        if b.count(legacy) == 1:
+            var["markAlways"] = False
+        elif "mSettings.inlineSuppressions" not in b:
+            var["markAlways"] = True
+        else:
+            raise T.Unrecognised("checkInternal: the call of markUnmatchedInlineSuppressionsAsChecked has neither the guarded nor the unguarded form")
+        b = T.function_body(cc, "void reportErr(const ErrorMessage &msg) override")
+        T.need(b, "if (mSuppressions.nomsg.isSuppressed(errorMessage, mUseGlobalSuppressions)) {", "CppCheckLogger::reportErr")
+        T.need(b, "if (suppressed) return; if (!mSuppressions.nofail.isSuppressed(errorMessage) && !mSuppressions.nomsg.isSuppressed(errorMessage)) {", "CppCheckLogger::reportErr")
+        tail_a = "suppressed = true; } std::string errmsg = msg.toString("
+        tail_b = "suppressed = true; if (!mUseGlobalSuppressions) (void)mSuppressions.nomsg.isSuppressed(errorMessage, true); } std::string errmsg = msg.toString("
+        if b.count(tail_a) == 1 and b.count(tail_b) == 0:
+            var["showGlobal"] = False
+        elif b.count(tail_b) == 1 and b.count(tail_a) == 0:
+            var["showGlobal"] = True
+        else:
+            raise T.Unrecognised("CppCheckLogger::reportErr: unexpected statements after `suppressed = true;`")
+        pp = rd("lib/preprocessor.cpp")
+        b = T.function_body(pp, "void Preprocessor::inlineSuppressions(SuppressionList &suppressions)")
+        T.need(b, "if (!mSettings.inlineSuppressions) return;", "Preprocessor::inlineSuppressions")
+    guard(t_cppcheck)
+
+    def t_process():
+        pe = rd("cli/processexecutor.cpp")
+        b = T.function_body(pe, "void writeSuppr(const SuppressionList &supprs) const")
+        legacy = "{ for (const auto& suppr : supprs.getSuppressions()) { if (suppr.isInline) writeToPipe(REPORT_SUPPR_INLINE, suppressionToString(suppr)); " \
+                 "else if (suppr.checked) writeToPipe(REPORT_SUPPR, suppressionToString(suppr)); } }"
+        patched = "{ for (const auto& suppr : supprs.getSuppressions()) { if (suppr.hash > 0) continue; if (suppr.isInline) writeToPipe(REPORT_SUPPR_INLINE, suppressionToString(suppr)); " \
+                  "else if (suppr.checked) writeToPipe(REPORT_SUPPR, suppressionToString(suppr)); } }"
+        if b == legacy:
+            var["skipHash"] = False
+        elif b == patched:
+            var["skipHash"] = True
+        else:
+            raise T.Unrecognised("PipeWriter::writeSuppr has neither the known legacy nor the patched form: " + b[:300])
+        b = T.function_body(pe, "static std::string suppressionToString(const SuppressionList::Suppression &suppr)")
+        if b != '{ std::string suppr_str = suppr.toString(); suppr_str += ";"; suppr_str += std::to_string(suppr.column); suppr_str += ";"; ' \
+                'suppr_str += suppr.checked ? "1" : "0"; suppr_str += ";"; suppr_str += suppr.matched ? "1" : "0"; suppr_str += ";"; ' \
+                "suppr_str += suppr.extraComment; return suppr_str; }":
+            raise T.Unrecognised("PipeWriter::suppressionToString changed (the harness writes the same format into the pipe): " + b[:300])
+        b = T.function_body(pe, "bool ProcessExecutor::handleRead(int rpipe, unsigned int &result, const std::string& filename)")
+        T.need(b, "auto suppr = SuppressionList::parseLine(parts[0]); suppr.isInline = (type == PipeWriter::REPORT_SUPPR_INLINE); suppr.column = strToInt<int>(parts[1]); "
+                  'suppr.checked = parts[2] == "1"; suppr.matched = parts[3] == "1"; suppr.extraComment = parts[4];', "handleRead")
+        T.need(b, "const std::string err = mSuppressions.nomsg.addSuppression(suppr); if (!err.empty()) { mSuppressions.nomsg.updateSuppressionState(suppr);", "handleRead")
+        c = T.function_body(pe, "unsigned int ProcessExecutor::check()")
+        T.need(c, "pipewriter.writeSuppr(supprs.nomsg);", "ProcessExecutor::check")
+        T.need(c, "supprs.nomsg.addSuppressions(mSuppressions.nomsg.getSuppressions());", "ProcessExecutor::check")
+    guard(t_process)
+
+    def t_thread():
+        te = rd("cli/threadexecutor.cpp")
+        b = T.function_body(te, "unsigned int check(const FileWithDetails *file, const FileSettings *fs)")
+        T.need(b, "for (const auto& suppr : mSuppressions.nomsg.getSuppressions()) { if (suppr.isInline) { const std::string err = mSuppressions.nomsg.addSuppression(suppr); "
+                  "if (!err.empty()) { mSuppressions.nomsg.updateSuppressionState(suppr); } continue; } if (!suppr.isLocal()) { mSuppressions.nomsg.updateSuppressionState(suppr); continue; } }",
+               "ThreadData::check (propagation loop, repeated in the harness)")
+    guard(t_thread)
+
+    def t_exec():
+        ce = rd("cli/cppcheckexecutor.cpp")
+        b = T.function_body(ce, "int CppCheckExecutor::check_internal(const Settings& settings, Suppressions& supprs) const")
+        T.need(b, "if ((settings.severity.isEnabled(Severity::information) || settings.checkConfiguration) && !supprs.nomsg.getSuppressions().empty()) {", "check_internal")
+        T.need(b, "reportUnmatchedSuppressions(settings, supprs.nomsg, mFiles, mFileSettings, stdLogger", "check_internal")
+    guard(t_exec)
+    return var, errs
+
+
+def expected_variant():
+    """the statement forms the tree must have: a finding recorded as `fixed` demands the repaired form"""
+    kinds = {e.get("key"): e.get("kind") for e in core.load_known() if e.get("property") == "C24"}
+    return dict(markAlways=kinds.get(KEY_LINE) == "fixed", skipHash=kinds.get(KEY_HASH) == "fixed", showGlobal=kinds.get(KEY_LOCAL) == "fixed")
+
+
 def load_corpus():
     p = os.path.join(core.VERIF, "corpus", "C24", "cases.json")
     return json.load(open(p)) if os.path.exists(p) else []
 
 
 def run_sequences(ctx, res, seqs, name, viol, check_spec=True):
-    exe = ctx.harness("c24", with_cli=True)
+    exe = cli.robust_harness(ctx, "c24", with_cli=True)
     drv = ctx.driver("drv_c24")
     hl = [harness_line(op) for (kind, ops) in seqs for op in ops]
     flat = [(kind, op) for (kind, ops) in seqs for op in ops]
@@ -467,6 +604,18 @@ def run(ctx, res):
     thorough = ctx.tier == "thorough"
     core.prove(ctx, res, MODULES, THEOREMS)
     viol = []
+    var, errs = extract(core.REPO)
+    exp = expected_variant()
+    detail = "; ".join(errs)
+    for k in ("markAlways", "skipHash", "showGlobal"):
+        if var[k] is not None and var[k] != exp[k]:
+            detail += " | %s: the source has the %s form but known_findings records the defect as %s" % (
+                k, "repaired" if var[k] else "legacy", "fixed" if exp[k] else "open finding")
+    res.oblig("T1:form-of-the-three-repairable-statements", all(var[k] == exp[k] for k in exp), "translation", detail)
+    res.oblig("T2:copied-helper-code-and-call-sites", not errs, "translation", "; ".join(errs))
+    res.extra["variant_seen"] = var
+    for k in exp:
+        VARIANT[k] = bool(var[k])
     # corpus first
     corpus = load_corpus()
     cseqs = [(c.get("kind", "mix"), [tuple(o) if not isinstance(o, tuple) else o for o in c["ops"]]) for c in corpus if c.get("ops")]
@@ -516,7 +665,7 @@ def replay(ctx, res, rp):
     if rp.get("kind") == "seq":
         ops = []
         print("sequence of %d ops; re-running through harness and model" % len(rp["ops"]))
-        exe = ctx.harness("c24", with_cli=True)
+        exe = cli.robust_harness(ctx, "c24", with_cli=True)
         rc, hout, herr = core.run_lines(exe, [], rp["ops"])
         for l, o in zip(rp["ops"], hout):
             print("  %s\n     -> %s" % (l, o[:300]))
